@@ -107,6 +107,7 @@ func emitFacts(o *out) {
 		o.f("]\n\n")
 	}
 	emitShFacts(o)
+	emitDepsFacts(o)
 }
 
 var impRx = regexp.MustCompile(`(?m)^\t(?:(\w+) )?"([^"{]+)"$`)
@@ -260,4 +261,299 @@ func emitShFacts(o *out) {
 	o.f("/-- Exec / run never assign through args[...] or env[...] -/\n")
 	o.f("def sh_Exec_noWrite : Option Bool := %s\n", noIndexedWrite("Exec", "args", "env"))
 	o.f("def sh_run_noWrite : Option Bool := %s\n\n", noIndexedWrite("run", "args", "env"))
+}
+
+// ---- mg/deps.go facts (C01 C02 C03 C13) ----
+
+func callName(e ast.Expr) string {
+	ce, ok := e.(*ast.CallExpr)
+	if !ok {
+		return ""
+	}
+	switch f := ce.Fun.(type) {
+	case *ast.Ident:
+		return f.Name
+	case *ast.SelectorExpr:
+		s := f.Sel.Name
+		x := f.X
+		for {
+			switch xx := x.(type) {
+			case *ast.Ident:
+				return xx.Name + "." + s
+			case *ast.SelectorExpr:
+				s = xx.Sel.Name + "." + s
+				x = xx.X
+				continue
+			}
+			return "?." + s
+		}
+	}
+	return ""
+}
+
+func boolFact(b, ok bool) string {
+	if !ok {
+		return "none"
+	}
+	if b {
+		return "some true"
+	}
+	return "some false"
+}
+
+// onceFun.run: fn.Run is called only inside the closure given to o.once.Do, and that closure stores the failure of a
+// panicking body (a deferred recover assigning o.err)
+func factStorePanic() (bool, bool) {
+	fd := findFunc("mg", "onceFun.run")
+	if fd == nil {
+		return false, false
+	}
+	var doLit *ast.FuncLit
+	ast.Inspect(fd, func(n ast.Node) bool {
+		if ce, ok := n.(*ast.CallExpr); ok && callName(ce) == "o.once.Do" && len(ce.Args) == 1 {
+			if fl, ok := ce.Args[0].(*ast.FuncLit); ok {
+				doLit = fl
+			}
+		}
+		return true
+	})
+	if doLit == nil {
+		return false, false
+	}
+	// every o.fn.Run call lies inside doLit
+	okRun, hasRun := true, false
+	ast.Inspect(fd, func(n ast.Node) bool {
+		if ce, ok := n.(*ast.CallExpr); ok && callName(ce) == "o.fn.Run" {
+			hasRun = true
+			if ce.Pos() < doLit.Pos() || ce.End() > doLit.End() {
+				okRun = false
+			}
+		}
+		return true
+	})
+	if !hasRun || !okRun {
+		return false, false
+	}
+	stores := false
+	for _, st := range doLit.Body.List {
+		ds, ok := st.(*ast.DeferStmt)
+		if !ok {
+			continue
+		}
+		fl, ok := ds.Call.Fun.(*ast.FuncLit)
+		if !ok {
+			continue
+		}
+		hasRecover, assigns := false, 0
+		ast.Inspect(fl, func(n ast.Node) bool {
+			if ce, ok := n.(*ast.CallExpr); ok && callName(ce) == "recover" {
+				hasRecover = true
+			}
+			if as, ok := n.(*ast.AssignStmt); ok {
+				for _, l := range as.Lhs {
+					if se, ok := l.(*ast.SelectorExpr); ok && se.Sel.Name == "err" {
+						if id, ok := se.X.(*ast.Ident); ok && id.Name == "o" {
+							assigns++
+						}
+					}
+				}
+			}
+			return true
+		})
+		if hasRecover && assigns >= 2 {
+			stores = true
+		}
+	}
+	// and the function returns o.err
+	retOK := false
+	if n := len(fd.Body.List); n > 0 {
+		if rs, ok := fd.Body.List[n-1].(*ast.ReturnStmt); ok && len(rs.Results) == 1 {
+			if se, ok := rs.Results[0].(*ast.SelectorExpr); ok && se.Sel.Name == "err" {
+				retOK = true
+			}
+		}
+	}
+	return stores, retOK
+}
+
+// LoadOrStore holds o.mu for its whole body; the map is touched nowhere else; run uses sync.Once
+func factAtomicOnce() (bool, bool) {
+	fd := findFunc("mg", "onceMap.LoadOrStore")
+	if fd == nil || len(fd.Body.List) < 2 {
+		return false, false
+	}
+	first2 := map[string]bool{}
+	for _, st := range fd.Body.List[:2] {
+		switch s := st.(type) {
+		case *ast.DeferStmt:
+			first2["defer "+callName(s.Call)] = true
+		case *ast.ExprStmt:
+			first2[callName(s.X)] = true
+		}
+	}
+	locked := first2["defer o.mu.Unlock"] && first2["o.mu.Lock"]
+	// no other function indexes a field named m of an onceMap
+	elsewhere := false
+	for _, f := range load("mg").files {
+		for _, d := range f.Decls {
+			fn, ok := d.(*ast.FuncDecl)
+			if !ok || fn == fd || fn.Body == nil {
+				continue
+			}
+			ast.Inspect(fn, func(n ast.Node) bool {
+				if ix, ok := n.(*ast.IndexExpr); ok {
+					if se, ok := ix.X.(*ast.SelectorExpr); ok && se.Sel.Name == "m" {
+						elsewhere = true
+					}
+				}
+				return true
+			})
+		}
+	}
+	// key is built from f.Name() and f.ID()
+	keyOK := false
+	ast.Inspect(fd, func(n ast.Node) bool {
+		if cl, ok := n.(*ast.CompositeLit); ok {
+			if id, ok := cl.Type.(*ast.Ident); ok && id.Name == "onceKey" && len(cl.Elts) == 2 {
+				names := map[string]string{}
+				for _, e := range cl.Elts {
+					if kv, ok := e.(*ast.KeyValueExpr); ok {
+						if k, ok := kv.Key.(*ast.Ident); ok {
+							names[k.Name] = callName(kv.Value)
+						}
+					}
+				}
+				keyOK = names["Name"] == "f.Name" && names["ID"] == "f.ID"
+			}
+		}
+		return true
+	})
+	return locked && !elsewhere && keyOK, true
+}
+
+// runDeps: wg.Add before each go, wg.Done deferred in the goroutine, and every panic (outside goroutines) after wg.Wait()
+func factWaitAll() (bool, bool) {
+	fd := findFunc("mg", "runDeps")
+	if fd == nil {
+		return false, false
+	}
+	waitPos := token.NoPos
+	for _, st := range fd.Body.List {
+		if es, ok := st.(*ast.ExprStmt); ok && callName(es.X) == "wg.Wait" {
+			waitPos = es.Pos()
+		}
+	}
+	if waitPos == token.NoPos {
+		return false, true
+	}
+	ok := true
+	var lits []*ast.FuncLit
+	ast.Inspect(fd, func(n ast.Node) bool {
+		if fl, isLit := n.(*ast.FuncLit); isLit {
+			lits = append(lits, fl)
+		}
+		return true
+	})
+	inLit := func(p token.Pos) bool {
+		for _, l := range lits {
+			if p >= l.Pos() && p <= l.End() {
+				return true
+			}
+		}
+		return false
+	}
+	ast.Inspect(fd, func(n ast.Node) bool {
+		switch x := n.(type) {
+		case *ast.CallExpr:
+			if callName(x) == "panic" && !inLit(x.Pos()) && x.Pos() < waitPos {
+				ok = false
+			}
+		case *ast.ReturnStmt:
+			if !inLit(x.Pos()) && x.Pos() < waitPos {
+				ok = false
+			}
+		}
+		return true
+	})
+	// the goroutine: first statement is a defer whose closure ends with wg.Done()
+	goOK := false
+	ast.Inspect(fd, func(n ast.Node) bool {
+		gs, isGo := n.(*ast.GoStmt)
+		if !isGo {
+			return true
+		}
+		fl, isLit := gs.Call.Fun.(*ast.FuncLit)
+		if !isLit || len(fl.Body.List) == 0 {
+			return true
+		}
+		if ds, isDefer := fl.Body.List[0].(*ast.DeferStmt); isDefer {
+			if dl, isLit := ds.Call.Fun.(*ast.FuncLit); isLit && len(dl.Body.List) > 0 {
+				if es, isExpr := dl.Body.List[len(dl.Body.List)-1].(*ast.ExprStmt); isExpr && callName(es.X) == "wg.Done" {
+					goOK = true
+				}
+			}
+		}
+		return true
+	})
+	return ok && goOK, true
+}
+
+// SerialDeps / SerialCtxDeps: a loop whose body is exactly runDeps(ctx, funcs[i:i+1])
+func factSerial(fn string) (bool, bool) {
+	fd := findFunc("mg", fn)
+	if fd == nil {
+		return false, false
+	}
+	good := false
+	ast.Inspect(fd, func(n ast.Node) bool {
+		var body *ast.BlockStmt
+		var idx string
+		switch l := n.(type) {
+		case *ast.RangeStmt:
+			body = l.Body
+			if id, ok := l.Key.(*ast.Ident); ok {
+				idx = id.Name
+			}
+		default:
+			return true
+		}
+		if body == nil || len(body.List) != 1 || idx == "" {
+			return true
+		}
+		es, ok := body.List[0].(*ast.ExprStmt)
+		if !ok || callName(es.X) != "runDeps" {
+			return true
+		}
+		ce := es.X.(*ast.CallExpr)
+		if len(ce.Args) != 2 {
+			return true
+		}
+		se, ok := ce.Args[1].(*ast.SliceExpr)
+		if !ok || se.Slice3 {
+			return true
+		}
+		lo, ok1 := se.Low.(*ast.Ident)
+		hi, ok2 := se.High.(*ast.BinaryExpr)
+		if ok1 && ok2 && lo.Name == idx && hi.Op == token.ADD {
+			if x, ok := hi.X.(*ast.Ident); ok && x.Name == idx {
+				if y, ok := hi.Y.(*ast.BasicLit); ok && y.Value == "1" {
+					good = true
+				}
+			}
+		}
+		return true
+	})
+	return good, true
+}
+
+func emitDepsFacts(o *out) {
+	a, ok := factStorePanic()
+	o.f("/-- onceFun.run stores the failure of a panicking body and returns o.err -/\ndef deps_storePanic : Option Bool := %s\n", boolFact(a && ok, true))
+	b, ok2 := factAtomicOnce()
+	o.f("/-- LoadOrStore runs under o.mu, keyed by (f.Name(), f.ID()); the map is touched nowhere else -/\ndef deps_atomicOnce : Option Bool := %s\n", boolFact(b, ok2))
+	w, ok3 := factWaitAll()
+	o.f("/-- runDeps: no panic/return before wg.Wait(); every goroutine defers wg.Done() last -/\ndef deps_waitAll : Option Bool := %s\n", boolFact(w, ok3))
+	s1, ok4 := factSerial("SerialDeps")
+	s2, ok5 := factSerial("SerialCtxDeps")
+	o.f("/-- the serial forms loop over runDeps(ctx, funcs[i:i+1]) -/\ndef deps_serialOneByOne : Option Bool := %s\n\n", boolFact(s1 && s2, ok4 && ok5))
 }
